@@ -35,13 +35,42 @@ def drive_wire(tier):
     return summary, mism, st, sample
 
 
+def run_watched(cmd, progress_file, stall=90, total=3600):
+    """Run a driver that appends to `progress_file` as it goes; kill it when the file has not grown for `stall` seconds (the code
+    under test hangs) or after `total` seconds.  Returns (rc, output, hung)."""
+    import subprocess, tempfile
+    with tempfile.TemporaryFile() as log:
+        p = subprocess.Popen(cmd, stdout=log, stderr=subprocess.STDOUT, env=dict(os.environ, CARGO_NET_OFFLINE="true"))
+        t0 = last = time.time()
+        size = -1
+        hung = False
+        while True:
+            try:
+                p.wait(timeout=2)
+                break
+            except subprocess.TimeoutExpired:
+                pass
+            sz = os.path.getsize(progress_file) if os.path.exists(progress_file) else 0
+            now = time.time()
+            if sz != size:
+                size, last = sz, now
+            if now - last > stall or now - t0 > total:
+                hung = True
+                p.kill()
+                p.wait()
+                break
+        log.seek(0)
+        o = log.read().decode("utf-8", "replace")
+    return p.returncode, o, hung
+
+
 def drive_vectors(tier, vset="universe"):
     vec, st = vectors(tier, vset)
     out = os.path.join(c.OUT, f"vec_result-{tier}-{os.getpid()}.ndjson")
     # the code under test may abort the process: the vector in progress is recorded as a crash and the run resumes behind it
     start, crashes = 0, []
     while True:
-        rc, o, dt = c.run([c.hbin("drive"), "vectors", vec, out, str(start)], timeout=1800)
+        rc, o, hung = run_watched([c.hbin("drive"), "vectors", vec, out, str(start)], out, stall=90, total=3600)
         rows = c.read_ndjson(out) if os.path.exists(out) else []
         if rc == 0 and any(r["kind"] == "summary" for r in rows):
             break
@@ -53,7 +82,7 @@ def drive_vectors(tier, vset="universe"):
                 open_ = None
         if open_ is None or len(crashes) > 200:
             c.driver_failed("drive vectors", rc, o)
-        why = "timeout" if rc == -9 or "timed out" in o[-200:] else o.strip()[-300:]
+        why = "hang: no vector finished for 90 s, process killed" if hung else o.strip()[-300:]
         if open_["vi"] == "seq":
             crashes.append({"kind": "mismatch", "vec": 0, "proto": "-", "buf": "-", "check": "seq-crash", "detail": why})
             nd = [r for r in rows if r["kind"] == "done"]
@@ -62,10 +91,20 @@ def drive_vectors(tier, vset="universe"):
             break
         st = re.findall(r"VSTAGE stage=(\S+) proto=(\S+)", o)
         stage, proto = st[-1] if st else ("-", "-")
-        crashes.append({"kind": "mismatch", "vec": open_["vec"], "proto": proto, "buf": "-", "check": "crash" if stage == "-" else stage + "-crash", "detail": why})
+        if hung:
+            # the stage marker is only printed by the panic hook: a hang is attributed to the vector, not to a stage
+            stage, proto = "-", "-"
+        crashes.append({"kind": "mismatch", "vec": open_["vec"], "proto": proto, "buf": "-", "check": ("hang" if hung else "crash") if stage == "-" else stage + "-crash", "detail": why})
         with open(out, "a") as f:
             f.write(json.dumps({"kind": "done", "vi": open_["vi"], "good": False, "evals": 1, "zc": 0}) + "\n")
         start = open_["vi"] + 1
+        if len([x for x in crashes if x["check"] == "hang"]) >= 3:
+            # every hang costs the stall time: three are reported, the vectors behind them stay unexamined in this run
+            rows = c.read_ndjson(out)
+            nd = [r for r in rows if r["kind"] == "done"]
+            rows.append({"kind": "summary", "vectors": len(nd), "evaluations": sum(r["evals"] for r in nd), "stopped_after_hangs": True,
+                         "mismatches": len([r for r in rows if r["kind"] == "mismatch"]) + len(crashes), "seq_len": 0, "zero_copy_nodes": sum(r["zc"] for r in nd)})
+            break
     rows += crashes
     if os.path.exists(out):
         os.remove(out)
@@ -289,13 +328,13 @@ def trace_selftest():
     return ok
 
 
-WRITE_CHECKS = {"crash", "seq-crash", "enc-crash", "enc-err", "write-leaves-fresh", "seq-enc-err", "seq-write-fresh", "walk-write-err", "walk-write-bytes",
+WRITE_CHECKS = {"crash", "hang", "seq-crash", "enc-crash", "enc-err", "write-leaves-fresh", "seq-enc-err", "seq-write-fresh", "walk-write-err", "walk-write-bytes",
                 "walk-write-state", "walk-write-panic"}
-READ_CHECKS = {"crash", "seq-crash", "dec-crash", "rt-dec-err", "rt-value", "dec-exact-err", "dec-exact", "dec-err", "dec-value", "dec-consumed", "dec-next", "read-leaves-fresh", "seq-dec-err", "seq-dec", "seq-read-fresh",
+READ_CHECKS = {"crash", "hang", "seq-crash", "dec-crash", "rt-dec-err", "rt-value", "dec-exact-err", "dec-exact", "dec-err", "dec-value", "dec-consumed", "dec-next", "read-leaves-fresh", "seq-dec-err", "seq-dec", "seq-read-fresh",
                "walk-read", "walk-read-consumed", "walk-read-state", "walk-read-panic"}
 BYTES_CHECKS = {"enc-bytes", "seq-enc-bytes"}
 LEN_CHECKS = {"len", "seq-len", "len-leaves-fresh", "walk-len", "walk-len-state", "walk-len-panic"}
-SKIP_CHECKS = {"skip", "skip-err", "skip-state", "skip-crash", "crash"}
+SKIP_CHECKS = {"skip", "skip-err", "skip-state", "skip-crash", "crash", "hang"}
 GUARD_CHECKS = {"guard", "seq-guard"}
 
 
@@ -344,9 +383,11 @@ def record_skip(seed, nvalues, vectors=None):
     crashes, start = [], 0
     while True:
         cmd = [c.hbin("drive"), "skiptrace", str(seed), str(nvalues), out, vectors or "-", str(start)]
-        rc, o, dt = c.run(cmd, timeout=1800)
-        if rc == 0:
+        rc, o, hung = run_watched(cmd, out, stall=60, total=1800)
+        if rc == 0 and not hung:
             break
+        if hung:
+            o = o + "\nhang: the skipper did not finish this value within 60 s, process killed"
         lines = [l for l in open(out).read().split("\n") if l.strip()] if os.path.exists(out) else []
         last = max([i for i, l in enumerate(lines) if '"op":"sreset"' in l], default=None)
         if last is None or any('"op":"sdone"' in l for l in lines[last:]):
@@ -356,7 +397,7 @@ def record_skip(seed, nvalues, vectors=None):
                         "iterations_logged": len(lines) - last - 1, "death": o.strip()[-300:]})
         open(out, "w").write("\n".join(lines[:last]) + ("\n" if last else ""))
         start = head["run"] + 1
-        if len(crashes) > 50:
+        if len(crashes) > 50 or len([x for x in crashes if "hang:" in x["death"]]) >= 3:
             break
     return out, crashes
 
